@@ -56,6 +56,9 @@ func assignAliasOperator(d *dataTreeNavigator, context Context, expressionNode *
 			candidate.Kind = AliasNode
 			candidate.Value = aliasName
 			candidate.Alias = anchorNode
+			// an alias has no children of its own: what the node held before would
+			// be mixed into the anchor's content when the alias is exploded
+			candidate.Content = nil
 		}
 	}
 	return context, nil
